@@ -7,7 +7,7 @@ pub mod elems;
 pub mod ctx;
 
 pub use ctx::{CaseInfo, Ctx, Tier};
-pub use elems::{Elem, Nd, Tr, TrA, TrB, TrZ, Zn, A64, B3};
+pub use elems::{Elem, Nb, Nd, Tr, TrA, TrB, TrZ, Zn, A64, B3};
 pub use ledger::Injected;
 
 pub use serde_json;
